@@ -64,6 +64,7 @@ type Scenario struct {
 	Tasks     [][]Op         `json:"tasks,omitempty"`
 	Sched     *sim.SchedCfg  `json:"sched,omitempty"`
 	Mix       string         `json:"mix,omitempty"`
+	Trace     bool           `json:"trace,omitempty"`  // C17: the package's debug trace is switched on for the scenario
 	Pairs     [][2]string    `json:"pairs,omitempty"`  // C12 (base, ref) pairs
 	Values    []interface{}  `json:"values,omitempty"` // C06 model values as JSON
 	Kinds     []string       `json:"kinds,omitempty"`
